@@ -203,8 +203,9 @@ def gen_ghist_cases(ctx, scale):
             elif t < 80: ops.append('K%d' % r.choice([near(), r.below(limit), 0, max(0, cnt - 1), cnt, cnt + 1, SIZE_MAX]))
             elif t < 92:
                 k = min(r.choice([1, 0, cnt, r.below(cnt + 1), max(0, cnt - near())]), cnt); ops.append('b%d' % k); cnt -= k
-            elif t < 96: ops.append('c'); cnt = 0
-            else: ops.append('C'); cnt = 0
+            elif t < 94: ops.append('c'); cnt = 0
+            elif t < 96: ops.append('C'); cnt = 0
+            else: ops.append(r.choice('no'))   # AddBackNogrow when there is room; the generator's count stays a lower bound
         cases.append('ghist %s %d %s' % (F, L, ' '.join(ops)))
     return cases
 
@@ -424,7 +425,7 @@ def run(ctx):
         ctx.tie_obligations.append({'name': 'generated Gallina == real C++ on %d case lines (%d indexes/values)' % (len(icases), nidx), 'ok': not mism})
         gcases = gen_ghist_cases(ctx, scale)
         gm, _ = ctx.correspond('generated-container', gcases, par + [harness], par + [ctx.model_exe], timeout=3000)
-        ctx.tie_obligations.append({'name': 'generated container functions (Gen_ArrSqrt: AddBackCrt, Reserve, SetCountCrt, Shrink, Clear, pvDecCount, '
+        ctx.tie_obligations.append({'name': 'generated container functions (Gen_ArrSqrt: AddBackCrt, AddBackNogrowCrt, Reserve, SetCountCrt, Shrink, Clear, RemoveBack, pvGetItem = operator[] address, '
                                             'pvIncCapacity, pvDecCapacity, pvIncCount regenerated from SegmentedArray.h) == real momo::SegmentedArray on %d histories' % len(gcases), 'ok': not gm})
         for (i, c, a, b) in [m for m in gm if m[2] != '<missing>'][:2]:
             ctx.violation('generated container functions and the real container disagree', {'case': 'hist' + c[5:], 'impl': a[-300:], 'model': b[-300:],
